@@ -291,6 +291,16 @@ func (b *BloomSearchEngine) Stop(ctx context.Context) error {
 	b.stateMu.Lock()
 	b.stopped = true
 	verifEvent("stop.flag", 0, 0)
+	if !b.started {
+		// A never-started engine still owns every batch IngestRows accepted
+		// (and every Flush caller waiting on one): run the workers once so the
+		// normal shutdown drain below answers them instead of leaving their
+		// done channels silent.
+		b.started = true
+		b.wg.Add(2)
+		go b.ingestWorker()
+		go b.flushWorker()
+	}
 	b.stateMu.Unlock()
 
 	// Signal workers to stop
